@@ -71,7 +71,7 @@ reg("C04", harness="c04_crc", level="exploration", deadline=(240, 1500),
                "with a bit-serial reference anchored to 10 published check values. Every kernel call is made with poisoned caller-saved registers. "
                "Huge part: messages of 2^32 .. 2^32+16 MiB bytes (zeros plus one non-zero byte at the end / just beyond 4 GiB / near the start) on "
                "every vector kernel and the dispatched entries; expected values from the reference via a zero-run operator measured from the reference.",
-    level_note="CRCs are GF(2)-affine, Adler-32 affine mod 65521: the basis cases decide all data of those lengths only if the kernels have no "
+    level_note="the message buffer is write-protected during every call (a checksum only reads). CRCs are GF(2)-affine, Adler-32 affine mod 65521: the basis cases decide all data of those lengths only if the kernels have no "
                "data-dependent control flow (assumed; dense data checked). Lengths beyond the sweep are covered only by the listed large cases.",
     runs=[dict(flavour="sim", part="sweep"), dict(flavour="sim", part="huge")],
     rule="case = (implementation, len, placement, data, seed) or (implementation, len, impulse position/bit) or (implementation, len, split); "
@@ -115,7 +115,7 @@ reg("C08", harness="c08_raid", level="exploration", deadline=(300, 1500),
                "len<=256 (600), plus two-byte corruptions (first/last data, P, Q x same/other vector x distance 0,1,8,16,32,48,64,128 x equal or different deltas, "
                "the reference deciding per position whether the arrays are still consistent); below-minimum vects with unmapped arrays must be refused without a fault; every pair of lost data blocks is "
                "rebuilt from generated P/Q for vects<=10.",
-    level_note="parity is GF(2)-linear in the sources: impulses + dense data decide all data under the no-data-dependent-branch assumption; "
+    level_note="sources are write-protected during generation; during the check calls on consistent arrays all blocks and the pointer array are. Parity is GF(2)-linear in the sources: impulses + dense data decide all data under the no-data-dependent-branch assumption; "
                "trusted: ref/ref_gf.h (Q = Horner in 2 over 0x11D).",
     runs=[dict(flavour="sim")],
     rule="case = (implementation, vects, len, placement, data) / (implementation, vects, len, corrupted vector, position, value); "
@@ -130,7 +130,7 @@ reg("C09", harness="c09_invert", level="exploration", deadline=(300, 1800),
                "every (m,k), m<=255(256); Cauchy: every survivor set for m<=16 (20), all 1-,2-(3-)erasure minors for m in {64,128,255,256}, "
                "thorough all ~10^9 2x2 minors; Vandermonde: the documented safe table decided completely by enumerating every minor of its "
                "parity block; end-to-end encode/erase/invert/re-encode for all patterns m<=10 (12).",
-    level_note="general n x n (n>=5) and Cauchy survivor sets beyond the enumerated minors are theorems, not search results; trusted: ref/ref_gf.h "
+    level_note="end-to-end recovery also with 7, 8, 12, 13 and 19 erased fragments (m,k) = (14,7), (26,13), (32,13) at every simulated CPU level; general n x n (n>=5) and Cauchy survivor sets beyond the enumerated minors are theorems, not search results; trusted: ref/ref_gf.h "
                "Gaussian elimination.",
     runs={"quick": [dict(flavour="sim")], "thorough": [dict(flavour="sim"), dict(flavour="lgt")]},
     rule="case = one matrix / one (m,k) / one survivor set / one minor / one erasure pattern; distinct_nontrivial = distinct (m,k) and region "
@@ -165,7 +165,7 @@ reg("C02", harness="c02_inflate", level="exploration", deadline=(400, 2400), ext
                "fixed / balanced-dynamic / depth-15-dynamic blocks alone and after every kind of first block; a match sweep over 15 lengths x both "
                "ends of all 30 distance codes (thorough: all 256 lengths, all 32768 distances) after exact-length stored preambles; code shapes "
                "(depth-15 chains, 13-15-bit lit/len and 11-15-bit distance codes on the used symbols, single-code and empty alphabets, HLIT/HDIST "
-               "at maximum, run-length coded headers, hand-made HCLEN=5; length 258 spelt as symbol 284 + extra bits 31 next to short-coded literals, in final and non-final blocks); >64 KiB outputs with distance-32768 matches; plus zlib-made streams "
+               "at maximum, run-length coded headers incl. zero runs spelt with symbol 16 after a 17/18 run or an explicit 0, hand-made HCLEN=5; length 258 spelt as symbol 284 + extra bits 31 next to short-coded literals, in final and non-final blocks); >64 KiB outputs with distance-32768 matches; plus zlib-made streams "
                "(4 levels x 5 strategies x windowBits x memLevel). Each x up to 7 wrapper modes x {stateless, isal_inflate} x kernels "
                "{base,_01,_04} x 4 trailing-junk sizes; output, final state, status, reported input position and state.crc are compared with the reference. "
                "Window-edge part: every small token stream is placed behind a stored filler so that EVERY one of its output positions coincides "
@@ -195,11 +195,11 @@ reg("C07", harness="c07_stream", level="model_checking", deadline=(500, 2400), e
                "between them) x 6 (7) input piece sizes x 3 output piece sizes, every piece in its own mapping that is scribbled once consumed. Big-then-tiny histories "
                "on 150 000-byte inputs: a call given 2000..100 000 bytes (below and above the internal staging buffer) with 1..4000 bytes of output, then a call "
                "presenting 0/1/7/300 bytes with any flush kind, for every named level-buffer size; the stream object sits directly behind an inaccessible page every other run.",
-    level_note="chunk sizes outside the alphabets and histories on long streams beyond single-split/uniform are not covered; flush budget <=1 (2) "
+    level_note="the >4 GiB big-stream part of C11 (1 MiB input pieces, noise around offset 2^32, small output pieces) is run under this property as well; chunk sizes outside the alphabets and histories on long streams beyond single-split/uniform are not covered; flush budget <=1 (2) "
                "and <=2 consecutive empty calls bound the deflate graph; a graph that hits its state cap is reported (exhaustive:false).",
-    runs={"quick": [dict(flavour="sim", part="inflate"), dict(flavour="sim", part="deflate"), dict(flavour="sim", part="deflate-layers")],
+    runs={"quick": [dict(flavour="sim", part="inflate"), dict(flavour="sim", part="deflate"), dict(flavour="sim", part="deflate-layers"), dict(flavour="sim", harness="c11_checksum", part="isize")],
           "thorough": [dict(flavour="sim", part="inflate"), dict(flavour="sim", part="deflate"), dict(flavour="sim", part="deflate-layers"),
-                       dict(flavour="h8k", part="inflate"), dict(flavour="lht", part="deflate-layers")]},
+                       dict(flavour="h8k", part="inflate"), dict(flavour="lht", part="deflate-layers"), dict(flavour="sim", harness="c11_checksum", part="isize")]},
     rule="state = normalised image of inflate_state / isal_zstream+level_buf + cursor; transition = one real API call under one environment "
          "choice; traces_validated_against_impl = root-to-terminal paths (all are implementation executions); distinct_nontrivial = graphs and "
          "stream/cpu combinations completed.")
@@ -269,7 +269,9 @@ reg("C11", harness="c11_checksum", level="fault_enumeration", deadline=(300, 240
                "state.crc must equal the reference checksum. Producer: trailers of all levels x 4 wrapper modes x 5 chunkings x 4 CPU levels "
                "are recomputed independently. Streams of 2^32+77782 bytes (32-bit total_in/total_out and ISIZE wrap, 16-bit hash indices) go through "
                "isal_deflate in 1 MiB pieces (quick: levels 0-1 on constant data; thorough: all levels x constant / mixed data): trailer against the "
-               "reference, then decoded again by isal_inflate (gzip verification) and zlib and compared with the input. One-shot producer with the output space swept from 12 bytes "
+               "reference, then decoded again by isal_inflate (gzip verification) and zlib and compared with the input; two more kinds put 4 MiB of noise around offset 2^32 behind a flush that pins a "
+               "block start just before it (ample output at level 3; 4096-byte output pieces and an in-between level buffer at level 1), so that a stored block straddles the wrap of the 32-bit "
+               "offsets; the stream object sits directly behind an inaccessible page. One-shot producer with the output space swept from 12 bytes "
                "under the documented bound to the bound on incompressible inputs of 65535..131072 bytes (whatever returns COMP_OK must carry its trailer). Boundary part: a payload whose running Adler-32 "
                "halves pass through 0, 1, 65519, 65520 is split at EVERY position (output split for the verifier in 4 modes x 2 encodings, input "
                "split x 3 flush kinds x 4 levels for the producer) on the base/sse/avx2 Adler kernels, plus every boundary-valued prefix as a whole payload.",
@@ -325,7 +327,7 @@ reg("C17", harness="c17_window", level="exploration", deadline=(300, 1800), extr
                "65537 x 3 dictionary lengths x both routes): the rest of the stream decoded with the dictionary as its only history must be the rest "
                "of the input with no match in front of the dictionary; window-edge family: period-2^w noise with a marker at the cut and two windows back "
                "(hash entry aliasing to distance exactly 2^w, real history byte different), history = earlier call or dictionary, w in {9,10,12,14,15}: "
-               "the result must decode within a 2^w window; length sweep: 16-symbol noise of period 2^w+1 (every position repeats just outside the window) at EVERY "
+               "the result must decode within a 2^w window; every isal_deflate_reset_dict must leave the (shared) pre-processed dictionary object unchanged; length sweep: 16-symbol noise of period 2^w+1 (every position repeats just outside the window) at EVERY "
                "length in a range of 4300 consecutive values x levels 1-3 x 6 CPU levels; wrong-state calls are refused with the context image unchanged.",
     level_note="inputs beyond the designed families are not covered; h8k/lht builds are run in the thorough tier; trusted: ref_inflate distance accounting.",
     runs={"quick": [dict(flavour="sim", part="window"), dict(flavour="sim", part="dict")],
@@ -373,10 +375,10 @@ reg("C05", harness="c05_memory", level="fault_enumeration", deadline=(600, 3000)
                "output buffer), all objects exact-size; the same harness on the portable-C build under ASan/UBSan and on the NDEBUG "
                "build; and the complete kernel sweeps (CRC, erasure code, update, RAID, zero detect: every length x end-flush and start-flush "
                "placements x every ISA variant) re-run under this property.",
-    level_note="an out-of-range access that lands inside another live buffer of the same call needs an offset beyond the 1 MiB guard bands; "
+    level_note="the >4 GiB big-stream part of C11 (stream object front-guarded, noise around offset 2^32) is run under this property as well; an out-of-range access that lands inside another live buffer of the same call needs an offset beyond the 1 MiB guard bands; "
                "intra-struct overflows are visible only in the ASan flavour (portable C code, not the assembly kernels).",
     runs=[dict(flavour="sim", part="exact"), dict(flavour="sim", part="revoke"), dict(flavour="sim", part="bigchunks"), dict(flavour="sim", part="bigout"), dict(flavour="rel", part="exact,revoke"), dict(flavour="noarch", part="exact,revoke,bigchunks"),
           dict(flavour="sim", harness="c20_zero"), dict(flavour="sim", harness="c04_crc"), dict(flavour="sim", harness="c03_ec"),
-          dict(flavour="sim", harness="c13_update"), dict(flavour="sim", harness="c08_raid")],
+          dict(flavour="sim", harness="c13_update"), dict(flavour="sim", harness="c08_raid"), dict(flavour="sim", harness="c11_checksum", part="isize")],
     rule="case = (entry point, variant / CPU level, input or length, placement); a fault, canary damage or sanitizer report is a violation; "
          "distinct_nontrivial = distinct produced streams, chunk schedules and (implementation, length) sweep points completed.")
